@@ -18,7 +18,7 @@ HEAD_GROW = '''    int new_len = al->buffer_len + MEM_BUFFER;
     al->buffer = (uint8_t *)resize;
 '''
 RECIPES = {
- "C08-f": "3way", "C11-e": "3way",
+ "C08-f": "3way", "C11-e": "3way", "C05-g": "3way", "C03-e": "3way", "C05-f": "3way", "C16-a": "3way",
  "C06-b": [("src/parser.c", HEAD_GROW, '''    int new_len = al->buffer_len + MEM_BUFFER;
     if (buf_pos + BUFFER_TOLERANCE > new_len)
       new_len = buf_pos + BUFFER_TOLERANCE;
@@ -79,6 +79,35 @@ RECIPES = {
     al->buffer_len = new_len;''')],
 }
 
+HEAD_SMART = "  if ((instr_buffer->assembly_opt & SMART_MOV_IMM) &&\n      !(hex && imme_str_len - (imme[0] == '-') >= STR_HEX_64))\n    instr_buffer->assembly_opt |= NASM_MOV_IMM;\n"
+RECIPES.update({
+ "C02-e": [("src/tokenizer.c", HEAD_SMART, """  if (instr_buffer->assembly_opt & SMART_MOV_IMM) {
+    if (hex && imme_str_len - (imme[0] == '-') >= STR_HEX_64)
+      instr_buffer->assembly_opt &= SMART_MOV_IMM;
+    else
+      instr_buffer->assembly_opt |= NASM_MOV_IMM;
+  }
+""")],
+ "C11-a": [("src/tokenizer.c", HEAD_SMART, """  if (instr_buffer->assembly_opt & SMART_MOV_IMM)
+    instr_buffer->assembly_opt =
+        (hex && imme_str_len - (imme[0] == '-') >= STR_HEX_64)
+            ? SMART_MOV_IMM
+            : SMART_MOV_IMM | NASM_MOV_IMM;
+""")],
+ "C11-c": [("src/tokenizer.c", HEAD_SMART, """  if (instr_buffer->assembly_opt & SMART_MOV_IMM) {
+    if (hex && imme_str_len - (imme[0] == '-') >= STR_HEX_64)
+      instr_buffer->assembly_opt = SMART_MOV_IMM;
+    else
+      instr_buffer->assembly_opt |= NASM_MOV_IMM;
+  }
+""")],
+ "C11-f": [("src/tokenizer.c", HEAD_SMART, """  // (a decimal literal of that length is wider than 32 bits in any case)
+  if ((instr_buffer->assembly_opt & SMART_MOV_IMM) &&
+      imme_str_len - (imme[0] == '-') < STR_HEX_64)
+    instr_buffer->assembly_opt |= NASM_MOV_IMM;
+""")],
+})
+
 def main(wt, only=None):
     head = subprocess.check_output("git -C /repo rev-parse --short HEAD", shell=True, text=True).strip()
     E.sh("git checkout -q --detach %s && git checkout -- . && git clean -fdq -e .libs" % head, cwd=wt)
@@ -90,7 +119,7 @@ def main(wt, only=None):
         E.sh("git checkout -- .", cwd=wt)
         if rec == "3way":
             rc, out = E.sh("git apply --3way %s && git reset -q" % orig, cwd=wt)
-            if rc: print(name, "3way failed", out); continue
+            if rc: print(name, "3way failed", out); E.sh("git reset -q --hard HEAD", cwd=wt); continue
         else:
             for f, old, new in rec:
                 p = os.path.join(wt, f); s = open(p).read()
